@@ -1307,6 +1307,11 @@ LIST_WEIGHTS = dict(
     # functions returning a bare variable / literal.  (Before the repair abbdf69 the retained origin names were
     # written into that shared value: they showed through the other holders and survived reset_state.)
     list_alias=0.25,
+    # (addition, default off: no random draw is consumed when it is 0) LIST_RANDOM of variables / LIST_ALL(..) among
+    # the printed observations and the computed right-hand sides, {RANDOM(a, b)} beside printed lists and a rare
+    # `~ SEED_RANDOM(n)`: the story's random counter (previousRandom: the raw 32-bit draw after LIST_RANDOM, +1 per
+    # RANDOM, 0 after SEED_RANDOM) takes all its kinds of values
+    list_random=0.0,
 )
 
 
@@ -1322,6 +1327,7 @@ def listify(rng, ast, **weights):
     w.update(weights)
     r = rng
     alias = w["list_alias"]
+    lrnd = w.get("list_random", 0.0)
     lists, items = {}, []
     decl = []
     for li in range(r.randint(*w["n_lists"])):
@@ -1378,6 +1384,8 @@ def listify(rng, ast, **weights):
 
     def computed(vs):
         v = r.choice(vs)
+        if lrnd > 0 and r.random() < lrnd:
+            return r.choice(["LIST_RANDOM(LIST_ALL(%s))", "LIST_RANDOM(%s)", "LIST_RANDOM(LIST_INVERT(%s))"]) % v
         k = r.randint(0, 8)
         if k == 0:
             return "LIST_ALL(%s)" % v
@@ -1399,6 +1407,8 @@ def listify(rng, ast, **weights):
 
     def observation(vs):
         v = r.choice(vs)
+        if lrnd > 0 and r.random() < lrnd:
+            return r.choice(["LIST_RANDOM(LIST_ALL(%s))", "LIST_RANDOM(%s)", "LIST_RANDOM(%s + " + item() + ")"]) % v
         k = r.randint(0, 11)
         if k <= 2:
             return "LIST_ALL(%s)" % v
@@ -1428,6 +1438,8 @@ def listify(rng, ast, **weights):
             c += [["t", " and "], ["e", ["list", observation(vs)]]]
         if r.random() < 0.25:
             c += [["t", " "], ["c", ["list", r.choice(vs)], [["t", "some"]], [["t", "none"]]]]
+        if lrnd > 0 and r.random() < lrnd:
+            c += [["t", " roll "], ["e", ["list", "RANDOM(1, %d)" % r.choice([6, 100, 1000000])]]]
         c.append(["t", "."])
         return ["line", c, [], None]
 
@@ -1464,6 +1476,8 @@ def listify(rng, ast, **weights):
             return out
         for _ in range(r.choice([1, 1, 2, 3])):
             out.append(assign(vs, vs) if r.random() < 0.6 else show(vs))
+        if lrnd > 0 and r.random() < lrnd * 0.15:
+            out.insert(r.randrange(len(out) + 1), ["eval", ["list", "SEED_RANDOM(%d)" % r.randint(0, 99)]])
         return out
 
     def blk(b, function=False):
